@@ -1,6 +1,8 @@
 #!/bin/sh
 # Build the Coq development from files on disk only (full .vo build).
 set -e
-cd "$(dirname "$0")/coq"
-coq_makefile -f _CoqProject -o Makefile
+cd "$(dirname "$0")"
+sh tools/gen_coqproject.sh
+cd coq
+[ -f Makefile ] || coq_makefile -f _CoqProject -o Makefile
 timeout 3000 make -j16
